@@ -347,7 +347,7 @@ MANIFEST_TEXT["C12"] = dict(
     note=NOTE_PBT)
 
 CHECKS["C13"] = dict(
-    {"quick": {"tests": [{"test": "TestC13", "checks": 1500, "subchecks": KINDS7},
+    {"quick": {"tests": [{"test": "TestC13", "checks": 2400, "subchecks": KINDS7},
                          {"test": "TestC13Conc", "checks": 300, "subchecks": 1, "race": True}]},
      "thorough": {"shards": 16, "tests": [{"test": "TestC13", "checks": 4000, "subchecks": KINDS7},
                                           {"test": "TestC13Conc", "checks": 800, "subchecks": 1, "race": True}]}},
